@@ -9,13 +9,18 @@
    - math functions (calc/min/max/clamp, any letter case) are walked by convert_rpx_in_block in
      calc mode, which is inherited by parentheses nested in them; every other function nested in
      a selector-context block stays in convert_class_names_and_rpx_in_block;
-   - `contain_rule_list` = {media, supports, document, layer, container, scope, starting-style},
+   - `contain_rule_list` = {media, supports, document, -moz-document, layer, container, scope, starting-style},
      compared ASCII-case-insensitively;
    - `@import` accepts a string, a url token or `url("...")`;
    - output side effects that survive a failed `try_parse` in the @import branch;
    - `@import ... layer(a.b)`: the layer name is written by the value walker (fix 661ebe6);
    - `:host` detection: the token after `:` is read including whitespace (fix bdd7adf), and the
-     detection returns early at end of input. *)
+     detection returns early at end of input; `host` in any letter case (fix a899a19); a second
+     scan finds `:host` later among the top-level tokens of the prelude (fix 1041599);
+   - `@import` / `layer(` / `supports(` in any letter case (fix 33fc779), the bare `layer` keyword
+     directly after the target (fix 89a064d);
+   - `at_file_start` survives `@import` / `@charset` rules and is false in nested rule lists
+     (fix 73ca189); `-moz-document` is rule-bearing (fix 5b11f39). *)
 From GE Require Export Model.CssOut Model.CssUrlEnc.
 Open Scope N_scope.
 
@@ -109,6 +114,8 @@ Definition s_layer : str := [108; 97; 121; 101; 114].
 Definition s_supports : str := [115; 117; 112; 112; 111; 114; 116; 115].
 Definition s_media : str := [109; 101; 100; 105; 97].
 Definition s_document : str := [100; 111; 99; 117; 109; 101; 110; 116].
+Definition s_moz_document : str := [45; 109; 111; 122; 45] ++ s_document.
+Definition s_charset : str := [99; 104; 97; 114; 115; 101; 116].
 Definition s_wx_host : str := [119; 120; 45; 104; 111; 115; 116].
 Definition s_is : str := [105; 115].
 Definition s_dashdash : str := [45; 45].
@@ -315,8 +322,8 @@ Definition host_try_parse (o : opts) (l0 : list node) (endp : pos) (st : wstate)
       | n :: r2 =>
           let start :=
             match n with
-            | Leaf (TIdent s) _ => if str_eqb s s_host then Some None else None
-            | Block (TFunc s) _ body be _ => if str_eqb s s_host then Some (Some (cur_pos body be)) else None
+            | Leaf (TIdent s) _ => if str_eqb_ci s s_host then Some None else None
+            | Block (TFunc s) _ body be _ => if str_eqb_ci s s_host then Some (Some (cur_pos body be)) else None
             | _ => None
             end in
           match start with
@@ -333,11 +340,41 @@ Definition host_try_parse (o : opts) (l0 : list node) (endp : pos) (st : wstate)
   | _ => HostErr
   end.
 
+(* second scan (fix 1041599): `:host` later among the top-level tokens of the prelude.  Tokens are
+   read with next_including_whitespace (comments skipped, whitespace is a token); `found` is the
+   position after the first `host` that directly follows a colon; Err (None) when the input ends
+   before a `{}` block or no `:host` was found *)
+Fixpoint host_late_scan (l : list node) (endp : pos) (after_colon : bool) (found : option pos)
+  : option (list node * pos) :=
+  match l with
+  | [] => None
+  | n :: r =>
+      if is_comment (node_tok n) then host_late_scan r endp after_colon found
+      else match n with
+           | Block TCurly _ _ _ _ => match found with Some p => Some (r, p) | None => None end
+           | Leaf (TIdent s) _ =>
+               host_late_scan r endp false
+                 (if after_colon && str_eqb_ci s s_host then keep_first found (pos_after n r endp) else found)
+           | Block (TFunc s) _ _ _ _ =>
+               host_late_scan r endp false
+                 (if after_colon && str_eqb_ci s s_host then keep_first found (pos_after n r endp) else found)
+           | Leaf TColon _ => host_late_scan r endp true found
+           | _ => host_late_scan r endp false found
+           end
+  end.
+
+(* the rule does not start with `:host` *)
+Definition qr_main (o : opts) (l0 : list node) (endp : pos) (st : wstate) : list node * wstate :=
+  match (if convert_host o then host_late_scan l0 endp false None else None) with
+  | Some (rest, wp) => (rest, warn st W_HOST wp)
+  | None => qr_loop o l0 false false st
+  end.
+
 Definition qrule (o : opts) (l : list node) (endp : pos) (st : wstate) : list node * wstate :=
   let l0 := skip_ws l in
   match (if convert_host o then host_try_parse o l0 endp st else HostErr) with
   | HostDone rest st' => (rest, st')
-  | HostErr => qr_loop o l0 false false st
+  | HostErr => qr_main o l0 endp st
   end.
 
 (* ---------------------------------------------------------------- parse_at_rule *)
@@ -365,13 +402,13 @@ Fixpoint import_conds (o : opts) (l : list node) (closes : list (tok * pos)) (st
       if is_ws_or_comment (node_tok n) then import_conds o r closes st
       else match n with
            | Block (TFunc x) p body _ _ =>
-               if str_eqb x s_layer then
+               if str_eqb_ci x s_layer then
                  let st1 := tok_at st (TAt x) p (Some (TFunc x)) in
                  (* a layer name (`a.b`) is not a selector: value walker, no class handling (fix 661ebe6) *)
                  let st2 := rpx_body o false body None st1 in
                  let st3 := tok_at st2 TCurly p None in
                  import_conds o r ((TCloseCurly, p) :: closes) st3
-               else if str_eqb x s_supports then
+               else if str_eqb_ci x s_supports then
                  let st1 := tok_at st (TAt x) p (Some (TFunc x)) in
                  let st2 := tok_at st1 TParen p None in
                  let st3 := cn_body o body true false false st2 in
@@ -379,7 +416,13 @@ Fixpoint import_conds (o : opts) (l : list node) (closes : list (tok * pos)) (st
                  let st5 := tok_at st4 TCurly p None in
                  import_conds o r ((TCloseCurly, p) :: closes) st5
                else ImpGo l false closes (warn st W_UNEXPECTED p)
-           | Leaf (TIdent _) _ => ImpGo l true closes st
+           | Leaf (TIdent x) p =>
+               (* the bare `layer` keyword directly after the target: an anonymous layer (fix 89a064d) *)
+               if match closes with [] => str_eqb_ci x s_layer | _ => false end then
+                 let st1 := tok_at st (TAt x) p (Some (TIdent x)) in
+                 let st2 := tok_at st1 TCurly p None in
+                 import_conds o r ((TCloseCurly, p) :: closes) st2
+               else ImpGo l true closes st
            | Block TParen _ _ _ _ => ImpGo l true closes st
            | Leaf TSemi _ => ImpGo r false closes st
            | _ => ImpErr (warn st W_UNEXPECTED (node_pos n))
@@ -453,6 +496,7 @@ Definition import_try (o : opts) (sign : str) (start_pos : pos) (r : list node) 
 
 Definition contain_rule_list (x : str) : bool :=
   str_eqb_ci x s_media || str_eqb_ci x s_supports || str_eqb_ci x s_document ||
+  str_eqb_ci x s_moz_document ||
   str_eqb_ci x s_layer || str_eqb_ci x s_container || str_eqb_ci x s_scope ||
   str_eqb_ci x s_starting_style.
 
@@ -484,7 +528,7 @@ Definition at_rule (o : opts) (rec : list node -> pos -> wstate -> wstate) (l0 :
                    (endp : pos) (at_start : bool) (st : wstate) : option (list node * wstate) :=
   match l0 with
   | Leaf (TAt x) p :: r =>
-      match (if str_eqb x s_import then import_sign o else None) with
+      match (if str_eqb_ci x s_import then import_sign o else None) with
       | Some sign =>
           let start_pos := cur_pos r endp in
           let st0 := if at_start then st else warn st W_IMPORT_POS start_pos in
@@ -502,6 +546,13 @@ Definition at_rule (o : opts) (rec : list node -> pos -> wstate -> wstate) (l0 :
 
 (* ---------------------------------------------------------------- parse_rules *)
 
+(* `@charset` and other `@import` rules may precede an `@import` (fix 73ca189) *)
+Definition keeps_start (l0 : list node) : bool :=
+  match l0 with
+  | Leaf (TAt x) _ :: _ => str_eqb_ci x s_import || str_eqb_ci x s_charset
+  | _ => false
+  end.
+
 Fixpoint rules (fuel : nat) (o : opts) (l : list node) (endp : pos) (at_start : bool) (st : wstate)
   : wstate :=
   match fuel with
@@ -510,9 +561,10 @@ Fixpoint rules (fuel : nat) (o : opts) (l : list node) (endp : pos) (at_start : 
       match skip_ws l with
       | [] => st
       | l0 =>
-          match at_rule o (fun body be s => rules f o body be true s) l0 endp at_start st with
-          | Some (rest, st') => rules f o rest endp false st'
-          | None => let '(rest, st') := qrule o l0 endp st in rules f o rest endp false st'
+          let leading := at_start && keeps_start l0 in
+          match at_rule o (fun body be s => rules f o body be false s) l0 endp at_start st with
+          | Some (rest, st') => rules f o rest endp leading st'
+          | None => let '(rest, st') := qrule o l0 endp st in rules f o rest endp leading st'
           end
       end
   end.
